@@ -46,18 +46,32 @@ def detect_metric_variant():
     found = []
     for n in ast.walk(fn):
         if isinstance(n, ast.For) and isinstance(n.iter, ast.Call) and \
-                ast.unparse(n.iter) == 'self.elements.items()':
+                ast.unparse(n.iter) == 'self.elements.items()' and isinstance(n.target, ast.Tuple) \
+                and len(n.target.elts) == 2 and all(isinstance(x, ast.Name) for x in n.target.elts):
+            kname, ename = (x.id for x in n.target.elts)
+            # locals are renamed to k / e / partial_metrics: the decision is read, not the spelling
+            local = {}
+            for st in n.body:
+                if isinstance(st, ast.Assign) and len(st.targets) == 1 and \
+                        isinstance(st.targets[0], ast.Name) and isinstance(st.value, ast.Call) and \
+                        ast.unparse(st.value.func) == 'self.calculate_element_metrics':
+                    local[st.targets[0].id] = 'partial_metrics'
+
+            class Ren(ast.NodeTransformer):
+                def visit_Name(self, node):
+                    m = {kname: 'k', ename: 'e', **local}
+                    return ast.copy_location(ast.Name(m.get(node.id, node.id), node.ctx), node)
             for st in n.body:
                 if isinstance(st, ast.Assign) and len(st.targets) == 1 and \
                         isinstance(st.targets[0], ast.Subscript) and \
                         ast.unparse(st.targets[0].value) == 'metrics':
-                    found.append((ast.unparse(st.targets[0].slice), ast.unparse(st.value),
-                                  ast.unparse(n.target)))
+                    t = Ren().visit(ast.parse(ast.unparse(st)).body[0])
+                    found.append((ast.unparse(t.targets[0].slice), ast.unparse(t.value)))
     if len(found) != 1:
         raise ValueError(f'expected one assignment into metrics[...] in the mix loop, found {found}')
-    sl, val, tgt = found[0]
-    if val != 'partial_metrics' or tgt != '(k, e)':
-        raise ValueError(f'unrecognised mix loop: for {tgt}: metrics[{sl}] = {val}')
+    sl, val = found[0]
+    if val != 'partial_metrics':
+        raise ValueError(f'unrecognised mix loop: metrics[{sl}] = {val}')
     if sl == 'self.elements.types == k':
         return 'scatter', lib.sha(region)
     if sl in ('self.elements.id2index.loc[e.ids].values[:, 0]',
@@ -68,6 +82,7 @@ def detect_metric_variant():
 
 
 VARIANT = {'by_id': False}
+EXTRA_MODES = []        # strings the code compares `mode` with besides 'effective' / 'mean'
 PROG_FAIL = set()       # (case id, query index) where the translated program differs from the impl
 TIE = {'mode': 'T', 'reason': ''}
 
@@ -287,6 +302,20 @@ def oracle(mesh, q, r):
     got = impl_rows(r)
     eids = r['elem_ids']
     tol = tol_of(q)
+    if q['kind'] == 'n2e' and not q.get('avg', True):
+        pos = {x[0]: i for i, x in enumerate(mesh['nodes'])}
+        conn = {e: c for _, rows in mesh['blocks'] for e, c in rows}
+        wd = len(q['data'][0])
+        if len(got) != len(eids):
+            return 'gather: wrong number of rows'
+        for j, e in enumerate(eids):
+            exp = [F(q['data'][pos[n]][c]) for n in conn[e] for c in range(wd)]
+            if len(got[j]) != len(exp) or any(abs(a - b) > tol for a, b in zip(got[j], exp)):
+                return f'gather: element at position {j} does not get the rows of its own nodes'
+            want = [len(eids), len(conn[e]) * wd] if q['ravel'] else [len(eids), len(conn[e]), wd]
+            if r.get('orig_shape') != want:
+                return 'gather: result shape ' + str(r.get('orig_shape')) + ' instead of ' + str(want)
+        return None
     if q['kind'] == 'n2e':
         nodes = [x[0] for x in mesh['nodes']]
         pos = {n: i for i, n in enumerate(nodes)}
@@ -357,7 +386,7 @@ def bmat_lit(rows, nc):
 def q_to_coq(mesh, q, eids):
     b = lambda x: 'true' if x else 'false'  # noqa
     if q['kind'] == 'n2e':
-        return f"XN2E {field_lit(q['data'])} {len(q['data'][0])}"
+        return f"{'XN2E' if q.get('avg', True) else 'XGATHER'} {field_lit(q['data'])} {len(q['data'][0])}"
     omit = set(q.get('omit', []))
     opt = lambda key, txt: 'None' if key in omit else f'(Some {txt})'  # noqa
     w = len(next(iter(q['values'].values())))
@@ -492,6 +521,13 @@ def queries_for(rng, mesh):
                'data': [[float(sum(a[k] * F(r[1 + k]) for k in range(3)) + b), 7.0]
                         for r in nodes]})
 
+    # calc_average=False: the gathered rows themselves (3-D), ravel=True: flattened per element
+    for rv in (False, True):
+        wg = rng.choice([1, 2, 3])
+        qs.append({'kind': 'n2e', 'avg': False, 'ravel': rv,
+                   'data': [[rng.randint(-9, 9) for _ in range(wg)] for _ in nodes],
+                   'dtype': rng.choice(['float', 'int', 'int32']), 'by_name': rng.random() < 0.3})
+
     def values(const_col):
         w = rng.choice([1, 2, 3])
         k = rng.randint(-9, 9)
@@ -520,7 +556,7 @@ def queries_for(rng, mesh):
                    'raise_neg': False, 'values': values(rng.random() < 0.5)})
     # a string that is not a mode
     qs.append({'kind': 'e2n', 'mode': rng.choice(['median', 'Mean', 'MEAN', '', 'effective ', 'sum',
-                                                  'means', 'nodal']),
+                                                  'means', 'nodal'] + 3 * EXTRA_MODES),
                'weight': rng.choice(['false', 'implicit']), 'order1': False, 'values': values(False)})
     for q in qs:
         if q['kind'] != 'e2n':
@@ -871,6 +907,7 @@ def main(ctx):
         text, info = c14_e2n.translate(lib.REPO)
         lib.write_if_changed(gen_file, text)
         ctx.sources['signal_processor.py:' + '+'.join(info['methods'])] = info['sha']
+        EXTRA_MODES[:] = [x for x in info['mode_literals'] if x not in ('effective', 'mean')]
         ctx.notes['e2n_translated'] = {'methods_read': info['methods'],
                                        'mode_literals': info['mode_literals'],
                                        'defaults': info['defaults']}
@@ -942,7 +979,16 @@ def main(ctx):
             if q['kind'] == 'mod':
                 continue
             nq += 1
-            ctx.count('query:' + q['kind'] + (':' + q['mode'] + ':' + q['weight'] if q['kind'] == 'e2n' else ''))
+            ctx.count('query:' + q['kind'] + (':' + ('mean' if q['mode'] == 'mean' else 'effective'
+                                                     if q['mode'] == 'effective' else 'not-a-mode')
+                                              + ':' + q['weight'] if q['kind'] == 'e2n' else
+                                              '' if q.get('avg', True) else
+                                              ':calc_average=False' + (':ravel' if q['ravel'] else '')))
+            if q['kind'] == 'e2n':
+                ctx.count('incidence_arg:' + (q['inc']['kind'] if q.get('inc') else 'none'))
+                ctx.count('raise_negative_volume:' + str(q.get('raise_neg', True)))
+                ctx.count('keywords_left_out:' + str(len(q.get('omit', []))))
+            ctx.count('inverted_elements:' + str(bool(tg.get('inverted'))))
             if q.get('oracle_only'):
                 ctx.count('tie:oracle-only (float32 origin-fan volume kernel far from the origin)')
             if q['kind'] == 'n2e':
